@@ -213,8 +213,27 @@ impl Worker {
         self.rx = None;
     }
 
-    /// Send one request; Ok(answer) | Err("hang") | Err("died")
+    /// Send one request; Ok(answer) | Err("hang") | Err("died").
+    /// A request that does not answer in time is given a second chance in a fresh worker with a much longer limit (four
+    /// times the limit, at least a minute): on a loaded machine a computation may simply be slow, and a hang must be a hang.
     pub fn call(&mut self, req: &Value, timeout: Duration) -> Result<Value, String> {
+        // (once three requests of this run have hung for good, the tree is known to hang: no more second chances, so that a
+        //  check against such a tree still ends in reasonable time)
+        static CONFIRMED: std::sync::atomic::AtomicUsize = std::sync::atomic::AtomicUsize::new(0);
+        match self.call_once(req, timeout) {
+            Err(kind) if kind == "hang" && CONFIRMED.load(std::sync::atomic::Ordering::Relaxed) < 3 => {
+                let longer = std::cmp::max(timeout * 4, Duration::from_secs(60));
+                let r = self.call_once(req, longer);
+                if matches!(&r, Err(k) if k == "hang") {
+                    CONFIRMED.fetch_add(1, std::sync::atomic::Ordering::Relaxed);
+                }
+                r
+            }
+            other => other,
+        }
+    }
+
+    fn call_once(&mut self, req: &Value, timeout: Duration) -> Result<Value, String> {
         if self.child.is_none() {
             self.start();
         }
